@@ -218,10 +218,17 @@ func init() {
 	// btcsession <msgId> <inputs 1..3> <props>  =>  same:<number of signing sessions> | the differing id lists
 	//   per-input signing session ids (hex of the input's taproot sighash) of one delivery to resource 01, derived by
 	//   relayer A (fresh) twice on one Executor and by relayer B (another peer id / key share, after another delivery)
+	// btcsessionu <msgId> <inputs> <props> <unknown>: the same delivery ALSO carries <unknown> transfers for a resource id
+	// that is not configured on the Bitcoin side (any position); the configured resource's sessions must start all the same
+	ops["C19.btcsessionu"] = func(a []string) string { return ops["C19.btcsession"](a) }
 	ops["C19.btcsession"] = func(a []string) string {
 		peers := c19KeyPeers()
 		n := int(u64(a[1]))
 		np := int(u64(a[2]))
+		unk := 0
+		if len(a) > 3 {
+			unk = int(u64(a[3]))
+		}
 		rid := [32]byte{1}
 		addr := c19Addr(0)
 		script, err := txscript.PayToAddrScript(addr)
@@ -242,6 +249,15 @@ func init() {
 				}
 				ps = append(ps, proposal.NewProposal(1, 4, btcExecutor.BtcTransferProposalData{Amount: amt, Recipient: c19Addr(7 + i).String(),
 					DepositNonce: uint64(i), ResourceId: rid}, msgID, transfer.TransferProposalType))
+			}
+			for i := 0; i < unk; i++ { // transfers of a resource this chain does not know, before and after the others
+				u := proposal.NewProposal(1, 4, btcExecutor.BtcTransferProposalData{Amount: 1000, Recipient: c19Addr(7).String(),
+					DepositNonce: uint64(100 + i), ResourceId: [32]byte{0xee, byte(i)}}, msgID, transfer.TransferProposalType)
+				if i%2 == 0 {
+					ps = append([]*proposal.Proposal{u}, ps...)
+				} else {
+					ps = append(ps, u)
+				}
 			}
 			return ps
 		}
@@ -264,7 +280,7 @@ func init() {
 		outs = append(outs, run(eb, a[0], total, np), run(ea, a[0], total, np))
 		// several proposals of one resource: repeat on both relayers — nothing but the delivery may decide the order of
 		// the outputs and hence the sighashes
-		for i := 0; np > 1 && i < 6; i++ {
+		for i := 0; (np > 1 || unk > 0) && i < 6; i++ {
 			outs = append(outs, run(ea, a[0], total, np), run(eb, a[0], total, np))
 		}
 		r := agreeOut(outs)
